@@ -1981,12 +1981,12 @@ def setitem_array(out_name, array, indices, value):
         value_indices = base_value_indices[:]
         for i in non_broadcast_dimensions:
             j = i + offset
-            if j == dim_1d_int_index:
+            if implied_shape_positions[j] == dim_1d_int_index:
                 # Index is a 1-d integer array
                 #
                 # Define index in the current namespace for use in
                 # `value_indices_from_1d_int_index`
-                index = indices[j]
+                index = indices[dim_1d_int_index]
 
                 value_indices[i] = value_indices_from_1d_int_index(
                     dim_1d_int_index, value_shape[i + value_offset], *loc0_loc1
